@@ -645,7 +645,7 @@ func safeIdx(p []string, i int) string {
 
 func TestC11_BuiltinPrecedence(t *testing.T) {
 	c := harness.New(t, "C11", "builtin-precedence",
-		"with a custom function registered under the name of a built-in of the same receiver type (every built-in name of every type), calls render the built-in's result, not the custom function's. Non-trivial: all. Distinct by construction.")
+		"with a custom function registered under the name of a built-in of the same receiver type (every built-in name of every type), calls render the built-in's result, not the custom function's; calls the built-in rejects (wrong argument kind, missing argument) fail and do not fall back to the custom function. Non-trivial: all. Distinct by construction.")
 	defer c.Finish()
 	textwire.VerifReset()
 	defer textwire.VerifReset()
@@ -683,7 +683,27 @@ func TestC11_BuiltinPrecedence(t *testing.T) {
 			c.Fail(t, "mismatch", evalCase{Src: src}, "the built-in's result", withCustom, "a custom function shadowed the built-in "+p.fn)
 		}
 	}
+	// ... also when the built-in rejects its arguments: wrong kinds / missing arguments are
+	// errors of the built-in, the custom function of that name is not a fallback
+	misuses := []string{`"abcdef".truncate("x")`, `"abcdef".truncate()`, `"abc".repeat("x")`, `"abc".at("x")`, `"abc".contains(1)`, `"a,b".split(1)`, `"abc".trim(1)`, `"12".decimal(1)`,
+		`[1, 2].join(1)`, `[1, 2].slice("a")`, `[1, 2].append()`, `[1, 2].prepend()`, `[1, 2].contains()`, `5.decimal(1)`, `5.decimal(".", "x")`, `true.then()`}
+	for _, call := range misuses {
+		src := "{{ " + call + " }}"
+		r := evalString(c, "raw", src, src, nil)
+		c.CaseEnum(true, "misuse-with-custom-namesake")
+		c.Sample(src)
+		if r.Panic != nil || !r.IsErr() || strings.Contains(r.Out, "CUSTOM") || strings.Contains(r.Out, "424242") {
+			c.Fail(t, "mismatch", evalCase{Src: src}, "the built-in's error", r, "a built-in called with unacceptable arguments did not fail although a custom function of its name exists: "+call)
+		}
+	}
 	textwire.VerifReset()
+	for _, call := range misuses {
+		// (the same calls fail without custom functions: otherwise the list above is wrong)
+		src := "{{ " + call + " }}"
+		if r := evalString(c, "raw", src, src, nil); !r.IsErr() {
+			c.Note("misuse " + src + " does not fail without custom functions")
+		}
+	}
 	for _, p := range probes {
 		src := "{{ " + p.call + " }}"
 		plain := evalString(c, "raw", src, src, nil)
